@@ -10,6 +10,7 @@ package main
 import (
 	"bufio"
 	"context"
+	"encoding/hex"
 	"encoding/json"
 	"flag"
 	"fmt"
@@ -34,6 +35,7 @@ import (
 	sdk "go.opentelemetry.io/otel/sdk/metric"
 	"go.opentelemetry.io/otel/sdk/metric/metricdata"
 	"go.opentelemetry.io/otel/sdk/resource"
+	"go.opentelemetry.io/otel/trace"
 
 	"verif/harness/vgen"
 )
@@ -91,6 +93,12 @@ type Scenario struct {
 	Res      []AttrJ  `json:"res"`
 	ScopeAttrs []AttrJ `json:"scope_attrs,omitempty"`
 	MaxScale int32 `json:"max_scale,omitempty"` // exponential histograms: the view's MaxScale
+	// exemplars: measurements are recorded inside a sampled span and a view keeps only AllowKeys as data-point
+	// attributes, so every other attribute becomes a filtered attribute of the exemplar
+	Exemplars bool     `json:"exemplars,omitempty"`
+	TraceID   string   `json:"trace_id,omitempty"`
+	SpanID    string   `json:"span_id,omitempty"`
+	AllowKeys []string `json:"allow_keys,omitempty"`
 	Kind     string   `json:"kind"` // generator label
 }
 
@@ -119,7 +127,14 @@ type ValJ struct {
 	BadNative string   `json:"bad_native,omitempty"`
 }
 
+type ExJ struct {
+	Labels []KV    `json:"labels"` // SDK: filtered attributes; exposition: exemplar label pairs
+	Value  float64 `json:"value"`
+	IDsOK  bool    `json:"ids_ok,omitempty"` // SDK: trace / span id are those of the recording span
+}
+
 type SeriesJ struct {
+	Ex     []ExJ `json:"exemplars,omitempty"`
 	Labels []KV  `json:"labels"`
 	Scope  *KV   `json:"scope"` // otel_scope_name / otel_scope_version values
 	Val    ValJ  `json:"val"`
@@ -203,6 +218,17 @@ func runScenario(sc Scenario) (ob Obs) {
 		mpOpts = append(mpOpts, sdk.WithView(sdk.NewView(sdk.Instrument{Name: "*"},
 			sdk.Stream{Aggregation: sdk.AggregationBase2ExponentialHistogram{MaxSize: 160, MaxScale: sc.MaxScale}})))
 	}
+	rctx := ctx
+	if sc.Exemplars {
+		keys := make([]attribute.Key, len(sc.AllowKeys))
+		for i, k := range sc.AllowKeys {
+			keys[i] = attribute.Key(k)
+		}
+		mpOpts = append(mpOpts, sdk.WithView(sdk.NewView(sdk.Instrument{Name: "*"}, sdk.Stream{AttributeFilter: attribute.NewAllowKeysFilter(keys...)})))
+		tid, _ := trace.TraceIDFromHex(sc.TraceID)
+		sid, _ := trace.SpanIDFromHex(sc.SpanID)
+		rctx = trace.ContextWithSpanContext(ctx, trace.NewSpanContext(trace.SpanContextConfig{TraceID: tid, SpanID: sid, TraceFlags: trace.FlagsSampled}))
+	}
 	mp := sdk.NewMeterProvider(mpOpts...)
 	defer mp.Shutdown(ctx)
 	var skvs []attribute.KeyValue
@@ -232,7 +258,7 @@ func runScenario(sc Scenario) (ob Obs) {
 		ierr = e
 		for i, p := range sc.Points {
 			for _, v := range p.Values {
-				c.Add(ctx, int64(v), metric.WithAttributeSet(sets[i]))
+				c.Add(rctx, int64(v), metric.WithAttributeSet(sets[i]))
 			}
 		}
 	case "f64counter":
@@ -240,7 +266,7 @@ func runScenario(sc Scenario) (ob Obs) {
 		ierr = e
 		for i, p := range sc.Points {
 			for _, v := range p.Values {
-				c.Add(ctx, v, metric.WithAttributeSet(sets[i]))
+				c.Add(rctx, v, metric.WithAttributeSet(sets[i]))
 			}
 		}
 	case "i64updown":
@@ -248,7 +274,7 @@ func runScenario(sc Scenario) (ob Obs) {
 		ierr = e
 		for i, p := range sc.Points {
 			for _, v := range p.Values {
-				c.Add(ctx, int64(v), metric.WithAttributeSet(sets[i]))
+				c.Add(rctx, int64(v), metric.WithAttributeSet(sets[i]))
 			}
 		}
 	case "f64updown":
@@ -256,7 +282,7 @@ func runScenario(sc Scenario) (ob Obs) {
 		ierr = e
 		for i, p := range sc.Points {
 			for _, v := range p.Values {
-				c.Add(ctx, v, metric.WithAttributeSet(sets[i]))
+				c.Add(rctx, v, metric.WithAttributeSet(sets[i]))
 			}
 		}
 	case "i64gauge":
@@ -264,7 +290,7 @@ func runScenario(sc Scenario) (ob Obs) {
 		ierr = e
 		for i, p := range sc.Points {
 			for _, v := range p.Values {
-				c.Record(ctx, int64(v), metric.WithAttributeSet(sets[i]))
+				c.Record(rctx, int64(v), metric.WithAttributeSet(sets[i]))
 			}
 		}
 	case "f64gauge":
@@ -272,7 +298,7 @@ func runScenario(sc Scenario) (ob Obs) {
 		ierr = e
 		for i, p := range sc.Points {
 			for _, v := range p.Values {
-				c.Record(ctx, v, metric.WithAttributeSet(sets[i]))
+				c.Record(rctx, v, metric.WithAttributeSet(sets[i]))
 			}
 		}
 	case "i64hist", "i64expohist":
@@ -284,7 +310,7 @@ func runScenario(sc Scenario) (ob Obs) {
 		ierr = e
 		for i, p := range sc.Points {
 			for _, v := range p.Values {
-				c.Record(ctx, int64(v), metric.WithAttributeSet(sets[i]))
+				c.Record(rctx, int64(v), metric.WithAttributeSet(sets[i]))
 			}
 		}
 	case "f64hist", "f64expohist":
@@ -296,7 +322,7 @@ func runScenario(sc Scenario) (ob Obs) {
 		ierr = e
 		for i, p := range sc.Points {
 			for _, v := range p.Values {
-				c.Record(ctx, v, metric.WithAttributeSet(sets[i]))
+				c.Record(rctx, v, metric.WithAttributeSet(sets[i]))
 			}
 		}
 	case "i64obscounter", "i64obsupdown", "i64obsgauge":
@@ -397,7 +423,7 @@ func runScenario(sc Scenario) (ob Obs) {
 	}
 	for _, sm := range rm.ScopeMetrics {
 		for _, mm := range sm.Metrics {
-			ob.SDK = append(ob.SDK, sdkSeries(mm.Data)...)
+			ob.SDK = append(ob.SDK, sdkSeries(mm.Data, sc.TraceID, sc.SpanID)...)
 		}
 	}
 	return
@@ -405,7 +431,17 @@ func runScenario(sc Scenario) (ob Obs) {
 
 func canonFamily(mf *dto.MetricFamily) string {
 	var ms []string
-	for _, m := range mf.GetMetric() {
+	sortEx := func(e *dto.Exemplar) {
+		if e != nil { // exemplar labels come out of a Go map: their order is not an observable
+			sort.Slice(e.Label, func(i, j int) bool { return e.Label[i].GetName() < e.Label[j].GetName() })
+		}
+	}
+	for _, m0 := range mf.GetMetric() {
+		m := proto.Clone(m0).(*dto.Metric)
+		sortEx(m.GetCounter().GetExemplar())
+		for _, bk := range m.GetHistogram().GetBucket() {
+			sortEx(bk.GetExemplar())
+		}
 		b, _ := proto.MarshalOptions{Deterministic: true}.Marshal(m)
 		ms = append(ms, string(b))
 	}
@@ -423,16 +459,28 @@ func attrKVs(s attribute.Set) []KV {
 	return out
 }
 
-func sdkSeries(d metricdata.Aggregation) []SeriesJ {
+func sdkEx[N int64 | float64](exs []metricdata.Exemplar[N], tid, sid string) []ExJ {
+	var out []ExJ
+	for _, e := range exs {
+		x := ExJ{Value: float64(e.Value), IDsOK: hex.EncodeToString(e.TraceID) == tid && hex.EncodeToString(e.SpanID) == sid}
+		for _, kv := range e.FilteredAttributes {
+			x.Labels = append(x.Labels, KV{string(kv.Key), kv.Value.Emit()})
+		}
+		out = append(out, x)
+	}
+	return out
+}
+
+func sdkSeries(d metricdata.Aggregation, tid, sid string) []SeriesJ {
 	var out []SeriesJ
 	switch v := d.(type) {
 	case metricdata.Sum[int64]:
 		for _, dp := range v.DataPoints {
-			out = append(out, SeriesJ{Labels: attrKVs(dp.Attributes), Val: ValJ{Num: float64(dp.Value)}})
+			out = append(out, SeriesJ{Labels: attrKVs(dp.Attributes), Val: ValJ{Num: float64(dp.Value)}, Ex: sdkEx(dp.Exemplars, tid, sid)})
 		}
 	case metricdata.Sum[float64]:
 		for _, dp := range v.DataPoints {
-			out = append(out, SeriesJ{Labels: attrKVs(dp.Attributes), Val: ValJ{Num: dp.Value}})
+			out = append(out, SeriesJ{Labels: attrKVs(dp.Attributes), Val: ValJ{Num: dp.Value}, Ex: sdkEx(dp.Exemplars, tid, sid)})
 		}
 	case metricdata.Gauge[int64]:
 		for _, dp := range v.DataPoints {
@@ -456,11 +504,11 @@ func sdkSeries(d metricdata.Aggregation) []SeriesJ {
 		}
 	case metricdata.Histogram[int64]:
 		for _, dp := range v.DataPoints {
-			out = append(out, SeriesJ{Labels: attrKVs(dp.Attributes), Val: ValJ{Hist: true, Bounds: dp.Bounds, Counts: dp.BucketCounts, Count: dp.Count, Sum: float64(dp.Sum)}})
+			out = append(out, SeriesJ{Labels: attrKVs(dp.Attributes), Val: ValJ{Hist: true, Bounds: dp.Bounds, Counts: dp.BucketCounts, Count: dp.Count, Sum: float64(dp.Sum)}, Ex: sdkEx(dp.Exemplars, tid, sid)})
 		}
 	case metricdata.Histogram[float64]:
 		for _, dp := range v.DataPoints {
-			out = append(out, SeriesJ{Labels: attrKVs(dp.Attributes), Val: ValJ{Hist: true, Bounds: dp.Bounds, Counts: dp.BucketCounts, Count: dp.Count, Sum: dp.Sum}})
+			out = append(out, SeriesJ{Labels: attrKVs(dp.Attributes), Val: ValJ{Hist: true, Bounds: dp.Bounds, Counts: dp.BucketCounts, Count: dp.Count, Sum: dp.Sum}, Ex: sdkEx(dp.Exemplars, tid, sid)})
 		}
 	}
 	return out
@@ -496,6 +544,9 @@ func familyJ(mf *dto.MetricFamily) FamilyJ {
 		switch {
 		case m.Counter != nil:
 			s.Val.Num = m.GetCounter().GetValue()
+			if e := m.GetCounter().GetExemplar(); e != nil {
+				s.Ex = append(s.Ex, dtoEx(e))
+			}
 		case m.Gauge != nil:
 			s.Val.Num = m.GetGauge().GetValue()
 		case m.Histogram != nil:
@@ -525,6 +576,12 @@ func familyJ(mf *dto.MetricFamily) FamilyJ {
 			}
 			s.Val.Hist = true
 			for _, b := range h.GetBucket() {
+				if e := b.GetExemplar(); e != nil {
+					s.Ex = append(s.Ex, dtoEx(e))
+				}
+				if math.IsInf(b.GetUpperBound(), 1) && b.GetCumulativeCount() == h.GetSampleCount() {
+					continue // the +Inf bucket client_golang materialises to carry an exemplar beyond the last bound
+				}
 				s.Val.Bounds = append(s.Val.Bounds, b.GetUpperBound())
 				s.Val.Counts = append(s.Val.Counts, b.GetCumulativeCount())
 			}
@@ -561,6 +618,14 @@ func decodeSpans(spans []*dto.BucketSpan, deltas []int64) (idx []int64, counts [
 		}
 	}
 	return idx, counts, k != len(deltas)
+}
+
+func dtoEx(e *dto.Exemplar) ExJ {
+	x := ExJ{Value: e.GetValue()}
+	for _, lp := range e.GetLabel() {
+		x.Labels = append(x.Labels, KV{lp.GetName(), lp.GetValue()})
+	}
+	return x
 }
 
 func childMain(scheme, in, out string) {
@@ -844,6 +909,12 @@ func genScenario(r *vgen.Rand, id int, utf8 bool) Scenario {
 	if r.Chance(1, 4) {
 		sc.ScopeAttrs = genAttrs(r, r.Intn(4)+1, r.Chance(1, 6))
 	}
+	// exemplars: a sampled span around the measurements and a view that filters attributes out of the data point
+	if r.Chance(1, 7) {
+		sc.Inst = vgen.Pick(r, []string{"i64counter", "f64counter", "i64hist", "f64hist", "i64hist", "i64updown"})
+		sc.Bounds, sc.HasBounds = nil, false
+		makeExemplarScenario(r, &sc)
+	}
 	// resource: sometimes the default-looking one, sometimes colliding keys, rarely keys that cannot become labels
 	// (reserved "__" prefix, ':', only non-ASCII runes: target_info cannot be built)
 	switch r.Intn(4) {
@@ -857,6 +928,38 @@ func genScenario(r *vgen.Rand, id int, utf8 bool) Scenario {
 		sc.Res = []AttrJ{{K: "service.name", T: "s", S: "b"}, {K: "service_name", T: "s", S: "a"}, {K: "service-name", T: "s", S: "c"}, {K: "host", T: "i", I: 7}}
 	}
 	return sc
+}
+
+var droppedPool = []AttrJ{
+	{K: "drop.me", T: "s", S: "x"}, {K: "http.route", T: "s", S: "/a/b"}, {K: "dash-key", T: "i", I: 7}, {K: "9lead", T: "b", B: true},
+	{K: "é", T: "s", S: "acute"}, {K: "x", T: "s", S: ""}, {K: "sp ace", T: "f", F: 1.5},
+	{K: "long", T: "s", S: strings.Repeat("v", 120)}, // alone beyond the 128-rune limit (63 + 4 + 120)
+	{K: "k", T: "s", S: strings.Repeat("a", 64)},     // exactly at the limit: 63 + 1 + 64 = 128
+	{K: "k", T: "s", S: strings.Repeat("a", 65)},     // one beyond
+	{K: "mid", T: "s", S: strings.Repeat("m", 50)},
+}
+
+// makeExemplarScenario rewrites the points: kept attribute "keep" (+ "zid"), everything else is filtered into the exemplar.
+func makeExemplarScenario(r *vgen.Rand, sc *Scenario) {
+	sc.Exemplars = true
+	sc.AllowKeys = []string{"keep", "zid"}
+	sc.TraceID = fmt.Sprintf("%032x", r.U64()|1)
+	sc.SpanID = fmt.Sprintf("%016x", r.U64()|1)
+	for i := range sc.Points {
+		attrs := []AttrJ{{K: "keep", T: "s", S: vgen.Pick(r, []string{"a", "b"})}}
+		if i > 0 {
+			attrs = append(attrs, AttrJ{K: "zid", T: "i", I: int64(i)})
+		}
+		seen := map[string]bool{}
+		for n := r.Intn(4); n > 0; n-- {
+			a := vgen.Pick(r, droppedPool)
+			if !seen[a.K] {
+				seen[a.K] = true
+				attrs = append(attrs, a)
+			}
+		}
+		sc.Points[i].Attrs = attrs
+	}
 }
 
 func fixedCorpus(utf8 bool) []Scenario {
@@ -935,6 +1038,27 @@ func fixedCorpus(utf8 bool) []Scenario {
 		mk("expo.two.points", "s", inst, func(s *Scenario) {
 			s.Points = []PointJ{{Values: []float64{-1000, 1}}, {Attrs: []AttrJ{{K: "zid", T: "i", I: 1}}, Values: []float64{-1, 1000, 2}}}
 		})
+	}
+	// exemplars: accepted, at the 128-rune limit, one beyond it, far beyond it, keys that need sanitising; counters and histograms
+	for _, inst := range []string{"i64counter", "f64hist"} {
+		for _, dropped := range [][]AttrJ{
+			{{K: "drop.me", T: "s", S: "x"}},
+			{{K: "k", T: "s", S: strings.Repeat("a", 64)}},
+			{{K: "k", T: "s", S: strings.Repeat("a", 65)}},
+			{{K: "long", T: "s", S: strings.Repeat("v", 120)}},
+			{{K: "http.route", T: "s", S: "/a/b"}, {K: "9lead", T: "b", B: true}, {K: "é", T: "s", S: "acute"}},
+			{{K: "mid", T: "s", S: strings.Repeat("m", 50)}, {K: "dash-key", T: "i", I: 7}, {K: "sp ace", T: "f", F: 1.5}},
+			{},
+		} {
+			dropped := dropped
+			mk("exemplar", "s", inst, func(s *Scenario) {
+				s.Exemplars = true
+				s.AllowKeys = []string{"keep"}
+				s.TraceID = "0102030405060708090a0b0c0d0e0f10"
+				s.SpanID = "a1a2a3a4a5a6a7a8"
+				s.Points = []PointJ{{Attrs: append([]AttrJ{{K: "keep", T: "s", S: "a"}}, dropped...), Values: []float64{1, 20000, 7}}}
+			})
+		}
 	}
 	// histogram with the default boundaries and values on the boundaries
 	mk("lat", "ms", "f64hist", func(s *Scenario) {
@@ -1240,9 +1364,27 @@ func emit(w *vgen.Writer, sc Scenario, ob Obs) {
 		}
 		return vgen.App("OHist", vgen.List(pairs), vgen.N(v.Count), sum)
 	}
-	var pts []string
+	exCoq := func(exs []ExJ, runesKeys bool) string {
+		var items []string
+		for _, e := range exs {
+			z, ok := scaled(e.Value)
+			exact = exact && ok
+			items = append(items, vgen.Pair(attrsCoq(e.Labels, runesKeys), z))
+		}
+		return vgen.List(items)
+	}
+	var pts, pexs, oexs []string
+	idsOK := true
 	for _, s := range ob.SDK {
 		pts = append(pts, vgen.Pair(attrsCoq(s.Labels, asRunes), valCoq(s.Val, true)))
+		pexs = append(pexs, exCoq(s.Ex, true))
+		for _, e := range s.Ex {
+			idsOK = idsOK && e.IDsOK
+		}
+	}
+	if !idsOK {
+		w.Violation("an SDK exemplar does not carry the ids of the span the measurement was recorded in (harness precondition)", desc)
+		return
 	}
 	fam := vgen.None
 	if len(ob.Families) == 1 {
@@ -1254,6 +1396,7 @@ func emit(w *vgen.Writer, sc Scenario, ob Obs) {
 				sc = vgen.Some(vgen.Pair(vgen.HxS(s.Scope.K), vgen.HxS(s.Scope.V)))
 			}
 			ss = append(ss, "("+attrsCoq(s.Labels, false)+", "+sc+", "+valCoq(s.Val, false)+")")
+			oexs = append(oexs, exCoq(s.Ex, false))
 		}
 		fam = vgen.Some("(" + vgen.HxS(f.Name) + ", " + vgen.N(uint64(f.Type)) + ", " + vgen.List(ss) + ")")
 	}
@@ -1275,7 +1418,23 @@ func emit(w *vgen.Writer, sc Scenario, ob Obs) {
 	term := vgen.App("CScrape", vgen.Bool(sc.UTF8), vgen.Bool(sc.NoUnits), vgen.Bool(sc.NoTotal), ns, vgen.Bool(sc.NoScope), vgen.Bool(sc.NoTarget),
 		vgen.HxS(sc.Name), vgen.HxS(sc.Unit), vgen.N(uint64(instKind(sc.Inst))), vgen.HxS(sc.ScopeName), vgen.HxS(sc.ScopeVer),
 		attrsCoq(ob.ResAttrs, asRunes), attrsCoq(ob.ScopeAttrs, asRunes), vgen.List(pts),
-		vgen.Bool(ob.GatherErr != ""), vgen.N(uint64(len(ob.Handled))), vgen.Bool(ob.Target), vgen.Bool(ob.ScopeInfo), fam)
+		vgen.Bool(ob.GatherErr != ""), vgen.N(uint64(len(ob.Handled))), vgen.Bool(ob.Target), vgen.Bool(ob.ScopeInfo), fam,
+		vgen.HxS(sc.TraceID), vgen.HxS(sc.SpanID), vgen.List(pexs), vgen.List(oexs))
+	if sc.Exemplars {
+		w.Tally("exemplar-scenarios")
+		for _, s := range ob.SDK {
+			if len(s.Ex) > 0 {
+				w.Tally("sdk-points-with-exemplars")
+			}
+		}
+		for _, f := range ob.Families {
+			for _, s := range f.Series {
+				if len(s.Ex) > 0 {
+					w.Tally("series-with-exposed-exemplars")
+				}
+			}
+		}
+	}
 	scheme := "legacy"
 	if sc.UTF8 {
 		scheme = "utf8"
